@@ -20,9 +20,38 @@ WITNESS_DOC = {
 }
 
 
+# private names the witnesses mention: (owner adt/impl suffix, canonical name, text in the witness source)
+PRIVATE_FIELDS = [("state::State", "refs_by_id", ".refs_by_id.")]
+PRIVATE_FNS = [("DeserializationContext::pop_region", ".pop_region(")]
+
+
+def _retarget(an, ws):
+    """W5/W6 name a private field / function to show it is private (E0616 / E0624).  When the repository renamed that private
+    item (role discovery in canon.py found it under another name) the copied witness is pointed at the current name, so that
+    the verdict stays `private`, not `no such item`."""
+    core = an.core()
+    lib = os.path.join(ws, "src", "lib.rs")
+    src = open(lib).read()
+    new = src
+    for suffix, canonical, text in PRIVATE_FIELDS:
+        for adt, m in getattr(core, "field_renames", {}).items():
+            if adt.endswith(suffix):
+                for actual, canon in m.items():
+                    if canon == canonical:
+                        new = new.replace(text, text.replace(canonical, actual))
+    for key, text in PRIVATE_FNS:
+        name = key.rsplit("::", 1)[-1]
+        for old, canon in getattr(core, "fn_renames", {}).items():
+            if canon == name and old.rsplit("::", 1)[0].split("<")[0].endswith(key.rsplit("::", 1)[0]):
+                new = new.replace(text, text.replace(name, old.rsplit("::", 1)[-1]))
+    if new != src:
+        open(lib, "w").write(new)
+
+
 def _run_with(an):
     def _run(out):
         ws = an._ws_copy("witness", out)
+        _retarget(an, ws)
         scratch = os.environ.get("VERIF_SCRATCH", "/var/tmp")
         tgt = tempfile.mkdtemp(prefix="verif-wit.", dir=scratch)
         try:
